@@ -1396,7 +1396,12 @@ class Engine:
                     if isinstance(v, Raised):
                         out.append((s, v))
                     else:
-                        out.extend(self.apply_stub(s, astub, akey, None, [v], {}, e))
+                        for s2, r2 in self.apply_stub(s, astub, akey, None, [v], {}, e):
+                            # what the environment does during the suspension cannot be scripted for the native
+                            # harness: such a path is not straight-line replayable (same treatment as a loop cut)
+                            s2.heap['__cut__'] = True
+                            s2.heap['__rebase__'] = None
+                            out.append((s2, r2))
                 return out
         res = self.ev(e.value, st)
         if isinstance(e.value, ast.Call):
@@ -2541,6 +2546,8 @@ class Engine:
                 out.append((s, ('raise', cm.exc)))
                 continue
             for s2, v in self.apply_stub(s, enter, 'with ' + key, None, [cm], {}, stmt):
+                s2.heap['__cut__'] = True       # entering the context manager is an environment step (see ev_Await)
+                s2.heap['__rebase__'] = None
                 if isinstance(v, Raised):
                     out.append((s2, ('raise', v.exc)))
                     continue
